@@ -17,11 +17,13 @@ use refchess::Pos;
 use serde_json::{json, Value};
 use std::time::Duration;
 
-pub const RULE: &str = "Layer A (in-process, model-based): op lists of 1..12 ops over one engine — NewGame, SetPos (position command with FEN and move list; small positions, mates and stalemates included), Play(k plies of the same game), Search{depth 1..4, budget None | Nodes(k)} where k ranges over 0..2x the node count of the previous completed search (expiry before the first node, inside depth 1, between iterations, inside the last iteration; Nodes(0) is the image of 'movetime 0' / a clock at or below the reserve). Invariant after every Search: the returned move is a reference-legal move of the CURRENT position iff one exists, and none iff there is none. Layer B (black-box): scripts of ucinewgame?, 1..5 rounds of position + go (depth 1..3 pre-screened; movetime in {0,1,3,10,40}; clock sets wtime,btime 0..12000 with increments in any order, on both sides of the 5 s reserve) + isready; between consecutive readyok barriers exactly one line starts with 'bestmove', its move is legal in the position last set, or 0000 iff that position has no legal move. Non-trivial = a search on a position with >=2 legal moves that follows >=1 earlier search in the same engine/process or runs under a budget that expires before the requested depth completes; distinct by (history of ops / script text).";
+pub const RULE: &str = "Layer A (in-process, model-based): op lists of 1..12 ops over one engine — NewGame, Resume (the position command that was current before the last ucinewgame, sent again, continued by 0..2 plies), SetPos (position command with FEN and move list; small positions, mates and stalemates included), Play(k plies of the same game), Search{depth 1..4, budget None | Nodes(k)} where k ranges over 0..2x the node count of the previous completed search (expiry before the first node, inside depth 1, between iterations, inside the last iteration; Nodes(0) is the image of 'movetime 0' / a clock at or below the reserve). Invariant after every Search: the returned move is a reference-legal move of the CURRENT position iff one exists, and none iff there is none. Layer B (black-box): scripts of ucinewgame?, 1..5 rounds of position + go (depth 1..3 pre-screened; movetime in {0,1,3,10,40}; clock sets wtime,btime 0..12000 with increments in any order, on both sides of the 5 s reserve) + isready; between consecutive readyok barriers exactly one line starts with 'bestmove', its move is legal in the position last set, or 0000 iff that position has no legal move. Non-trivial = a search on a position with >=2 legal moves that follows >=1 earlier search in the same engine/process or runs under a budget that expires before the requested depth completes; distinct by (history of ops / script text).";
 
 #[derive(Debug, Clone)]
 enum Op {
     NewGame,
+    /// the position command that was current before the last ucinewgame, again (continued by k plies)
+    Resume(usize),
     SetPos(String, Pos),
     Play(usize),
     Search { depth: u8, budget: Option<u64> },
@@ -37,9 +39,21 @@ fn part_a(bytes: &[u8], stats: &mut Stats) -> Verdict {
     let mut last_nodes: u64 = 200;
     let mut searches_before = 0usize;
     let mut log: Vec<Value> = Vec::new();
+    // (base command, moves, position) that were current when the last ucinewgame was sent
+    let mut saved: Option<(String, Vec<String>, Pos)> = None;
     for _ in 0..nops {
-        let op = match s.weighted(&[8, 25, 17, 50]) {
+        let op = match s.weighted(&[8, 25, 17, 50, 6]) {
             0 => Op::NewGame,
+            4 => match &saved {
+                Some((b, m, p)) => {
+                    base_cmd = b.clone();
+                    cur_moves = m.clone();
+                    cur = p.clone();
+                    stats.class("A_position_before_ucinewgame_sent_again");
+                    Op::Resume(s.below(3))
+                }
+                None => Op::Play(1 + s.below(4)),
+            },
             1 => {
                 if s.chance(8) {
                     // mate or stalemate
@@ -95,7 +109,7 @@ fn part_a(bytes: &[u8], stats: &mut Stats) -> Verdict {
                     fl.verif_handle_command(text);
                     Ok(None)
                 }
-                Op::Play(_) => {
+                Op::Play(_) | Op::Resume(_) => {
                     let mut c = base_cmd.clone();
                     if !cur_moves.is_empty() {
                         if !c.split_whitespace().any(|t| t == "moves") {
@@ -125,6 +139,7 @@ fn part_a(bytes: &[u8], stats: &mut Stats) -> Verdict {
         // model update
         match &op {
             Op::NewGame => {
+                saved = Some((base_cmd.clone(), cur_moves.clone(), cur.clone()));
                 cur = Pos::startpos();
                 cur_moves.clear();
                 base_cmd = "position startpos".into();
@@ -136,7 +151,7 @@ fn part_a(bytes: &[u8], stats: &mut Stats) -> Verdict {
                 base_cmd = text.clone();
                 log.push(json!(text));
             }
-            Op::Play(k) => {
+            Op::Play(k) | Op::Resume(k) => {
                 // the Play op was executed with the moves chosen below on the previous turn of the
                 // loop; choose the moves first, then re-send (handled by executing again)
                 let mut added = Vec::new();
